@@ -318,6 +318,12 @@ def const_eval(n, env):
         if n['ref'].get('kind') == 'enum' and 'v' in n.d:
             return n['v']
         return env.get(n['ref'].get('id'))
+    if n.k == 'ConditionalOperator':
+        c = const_eval(n.ch[0], env)
+        if c is None:
+            a, b = const_eval(n.ch[1], env), const_eval(n.ch[2], env)
+            return a if a is not None and a == b else None
+        return const_eval(n.ch[1] if c else n.ch[2], env)
     if n.k == 'UnaryOperator':
         v = const_eval(n.ch[0], env)
         if v is None:
@@ -342,7 +348,7 @@ def const_eval(n, env):
     return None
 
 
-def explore_paths(func, start, env, want, edge_ok=None, limit=4000, force=None, after_edge=None, stop=None):
+def explore_paths(func, start, env, want, edge_ok=None, limit=4000, force=None, after_edge=None, stop=None, with_env=False):
     """enumerate the paths from CFG position `start` to the function's exits under a constant environment that
     is updated along each path (x = constant sets it, any other write to x forgets it) and prunes the branches
     it decides.  stop(e): the path ends at element e (reported with e as its last event).  Returns a list of paths, each the list of elements e with want(e) in execution order.
@@ -409,7 +415,7 @@ def explore_paths(func, start, env, want, edge_ok=None, limit=4000, force=None, 
                 out.append(events + [e])
                 return
             if crossed and want(e):
-                events = events + [e]
+                events = events + [(e, dict(env)) if with_env else e]
             env = upd(env, e)
             if force and e.id in force:
                 env = dict(env)
